@@ -711,6 +711,14 @@ C.setdefault("C18", []).append({"id": "benign-extract-method", "kind": "benign",
                                            "new": "        load_before = self.current_load\n        self._account(frame_size)\n"},
                                           {"old": "    def __str__(self) -> str:\n        return f\"{self.endpoint_a}<-->{self.endpoint_b}\"",
                                            "new": "    def _account(self, amount: float) -> None:\n        self.current_load += amount\n\n    def __str__(self) -> str:\n        return f\"{self.endpoint_a}<-->{self.endpoint_b}\""}]})
+v("C18", "overwrite-after-delivery", "break", BASE,
+  "            return True\n        # the receiver did not take the frame (and so sent nothing): it does not count towards the load\n        self.current_load = load_before\n        return False",
+  "            self.current_load = load_before + frame_size\n            return True\n        # the receiver did not take the frame (and so sent nothing): it does not count towards the load\n        self.current_load = load_before\n        return False",
+  "R18.4", "load of frames sent during the delivery is wiped")
+v("C18", "unaccounted-path", "break", AIRSPACE,
+  "        self.bandwidth_load[sender_network_interface.frequency.frequency_hz] += frame.size_Mbits\n        for wireless_interface",
+  "        if frame.is_broadcast:\n            self.bandwidth_load[sender_network_interface.frequency.frequency_hz] += frame.size_Mbits\n        for wireless_interface",
+  "R18.4", "only broadcasts are accounted")
 v("C18", "benign-admission-swapped", "benign", BASE,
   "            return self.current_load + frame.size_Mbits <= self.bandwidth",
   "            return self.bandwidth >= frame.size_Mbits + self.current_load", None, "operands swapped")
